@@ -84,6 +84,9 @@ def spec_objects(seed: int, n: int, depth: int):
     """generated identifiables whose leaves lie in the specification's lexical spaces (no SDK-only xs:normalizedString)"""
     from vf import gen
     out = []
+    gz = gen.Gen(random.Random(f"C05zoo:{seed}"), max_depth=depth, falsy_bias=0.3, exclude_types=["NormalizedString"])
+    gz.spec_lexical = True
+    out.append((-1, gz.zoo_submodel()))     # the deterministic zoo of leaf values (py/vf/gen.py): on every run
     for i in range(n):
         g = gen.Gen(random.Random(f"C05obj:{seed}:{i}"), max_depth=depth, falsy_bias=0.3, exclude_types=["NormalizedString"])
         g.spec_lexical = True
@@ -93,7 +96,7 @@ def spec_objects(seed: int, n: int, depth: int):
 
 
 def regen(case):
-    return spec_objects(case["seed"], case["index"] + 1, case.get("depth", 3))[case["index"]][1]
+    return dict(spec_objects(case["seed"], max(case["index"], 0) + 1, case.get("depth", 3)))[case["index"]]
 
 
 # ----------------------------------------------------------------------------------------------- independent writer (spec mapping)
